@@ -100,3 +100,26 @@ CHECKS.update({
   "note": "Trusted: ASan/UBSan; red-zone tools miss intra-object overflows (those are delegated to the format models of C03/C11/C16)."},
 })
 NOT_APPLICABLE = {}
+
+# ---- additions made after the seeded-change rounds (DESIGN.md 9.6): appended to the texts above
+ADDED = {
+ "C01": " Added: forge_r (the verifier's computed point R is fixed and an arbitrary numeric relation r = f(X(R)) is presented: x+(p-n), x-(p-n), p-x, ...), crafted u1*G+u2*Q = infinity triples, s values limb-wise adjacent to n/2, quick tier on san + mx_i64 + mx_noasm.",
+ "C02": " Added: the quick tier also runs the no-asm 64-bit build (mx_noasm).",
+ "C05": " Added: operands derived from a chosen RESULT in the final-correction windows of each reduction (steer / wl_reduce), limb-pattern and limb-wise-comparison operands, one-bit / one-limb differences for the equality routines, magnitude 31 for fe_equal on every build (finding F4, fixed), quick tier on 5 builds incl. the non-VERIFY 32-bit-limb one.",
+ "C07": " Added: algebraically crafted inputs that make an intermediate point of a verifier the point at infinity (adaptor R1/R2/derived point, ECDSA, Schnorr, cancelling combine/tweaks, Borromean chain points in surjection / whitelist / range proofs), production (non-VERIFY) build in the quick tier.",
+ "C09": " Added: directed zero-blinding cases around the min_bits clamp (known finding F5 is reported as KNOWN-FINDING with its own key).",
+ "C10": " Added: proofs whose digit commitment has x0 < 2^32+977 under a prover-chosen generator, in canonical and x0+p encodings (decides the 'digit commitment >= p' clause), quick tier also on the 32-bit-limb build.",
+ "C12": " Added: key lists containing a key and its negation, sign-flipped partial signatures / nonces / keys and effective-nonce-at-infinity probes for partial_sig_verify, sessions continuing with the cache left by a refused tweak.",
+ "C14": " Added: crafted R1 / R2 / derived-point-at-infinity strings, r differing from R.x in one bit at every position, quick tier also on the 32-bit-limb build.",
+ "C16": " Added: duplicate and negation-twin key lists, negated-key mutations, crafted chain-point-at-infinity inputs.",
+ "C17": " Added: the empty aggregate with every boundary scalar and wrong length.",
+ "C18": " Added: arbitrary non-zero ints for the 'party' flag; production build in the quick tier.",
+ "C20": " Added: helgrind runs of the production build (inline asm included), production build in the quick tier, a shim death in the static-context workload is a violation.",
+}
+NOTE_FIX = {
+ "C10": "Trusted: ref/rangeproof.py, ref/borromean.py (incl. the small-x prover with a chosen generator).",
+}
+for _k, _v in ADDED.items():
+    if _k in CHECKS: CHECKS[_k]["text"] = CHECKS[_k]["text"] + _v
+for _k, _v in NOTE_FIX.items():
+    if _k in CHECKS: CHECKS[_k]["note"] = _v
